@@ -14,7 +14,7 @@ TARGETS = ['C17/Props.vo', 'C17/Corr.vo', 'C17/GenEq.vo']
 MODEL_TARGETS = ['C17/Corr.vo']
 PROPS_FILE = 'C17/Props.v'
 PROPS_MODULE = 'QV.C17.Props'
-CORR_IMPORTS = ['QV.C17.Model', 'QV.C17.Spec', 'QV.C17.Corr']
+CORR_IMPORTS = ['QV.C17.Model', 'QV.C17.Spec', 'QV.C17.Scope', 'QV.C17.Corr']
 CHECK_CORR = 'check_corr'
 CHECK_SPEC = 'check_spec'
 SHARD = 150
@@ -199,6 +199,24 @@ def g_src(t, channels, idxs=(), subst=()):
                                         g_src(t['body'], channels, idxs + (t['idx'],), subst))
     if k == 'remap':
         return g_src(t['body'], channels, idxs, ((t['idx'], (F(t['scale']), F(t['shift']))),) + tuple(subst))
+    raise ValueError(k)
+
+
+def g_src2(t, channels, idxs=()):
+    """Gallina `src2` term (coq/C17/Scope.v): rebinding mappings stay in the term, the model resolves the scopes"""
+    k = t['t']
+    if k == 'hold':
+        return '(S2Hold %s %s)' % (gQ(F(t['dur'])), glist(lambda ch: g_volt(t['v'][ch], idxs, ()), channels))
+    if k == 'seq':
+        return '(S2Seq %s)' % glist(lambda x: g_src2(x, channels, idxs), t['l'])
+    if k == 'rep':
+        return '(S2Rep %s %s)' % (gZ(t['n']), g_src2(t['body'], channels, idxs))
+    if k == 'iter':
+        return '(S2Iter %s %s %s %s)' % (gZ(t['start']), gZ(t['stop']), gZ(t['step']),
+                                         g_src2(t['body'], channels, idxs + (t['idx'],)))
+    if k == 'remap':
+        return '(S2Remap %s %s %s %s)' % (vlib.gnat(idxs.index(t['idx'])), gQ(F(t['scale'])), gQ(F(t['shift'])),
+                                          g_src2(t['body'], channels, idxs))
     raise ValueError(k)
 
 
@@ -411,36 +429,62 @@ def boundary_cases():
 
 def enum_small(tier):
     """exhaustive small scope: nests of <= 2 (quick) / 3 (thorough) levels out of {iter, rep} over one or two holds,
-    lengths <= 3, counts <= 2, one channel; voltages affine in every enclosing index."""
-    out = []
+    lengths <= 3, counts <= 2; voltages of channel a affine in every enclosing index.  quick: one channel.  thorough:
+    additionally two channels in both channel orders (b plain / affine in the innermost index / affine in the outermost
+    index only, i.e. a key with stripped trailing zeros) at depth 3 and three channels in all six orders at depth 2."""
+    import itertools
     lens = [1, 2, 3]
     counts = [1, 2]
+
+    def volt(ch, idxs, var, bmode):
+        if not idxs:
+            return {'k': 'plain', 'v': fs(F(3 + var, 2) + {'a': 0, 'b': F(1, 4), 'c': F(-1, 8)}[ch])}
+        if ch == 'a':
+            return {'k': 'aff', 'base': fs(F(var, 4)), 'coefs': {n: fs(COEF_POOL[(k + var) % 3]) for k, n in enumerate(idxs)}}
+        if ch == 'b':
+            if bmode == 0:
+                return {'k': 'plain', 'v': fs(F(var + 1, 4))}
+            n = idxs[-1] if bmode == 1 else idxs[0]
+            return {'k': 'aff', 'base': fs(F(1 + var, 8)), 'coefs': {n: fs(COEF_POOL[(3 + var) % len(COEF_POOL)])}}
+        return {'k': 'aff', 'base': fs(F(-var, 2)), 'coefs': {n: fs(COEF_POOL[(k + 5 + var) % len(COEF_POOL)]) for k, n in enumerate(idxs)}}
+
+    def enum(chs, depth, bmode):
+        def hold(idxs, var):
+            return {'t': 'hold', 'dur': '1', 'v': {ch: volt(ch, idxs, var, bmode) for ch in chs}}
+
+        def plain_hold():
+            return {'t': 'hold', 'dur': '1', 'v': {ch: {'k': 'plain', 'v': fs(F(5, 2) + k)} for k, ch in enumerate(chs)}}
+
+        def bodies(idxs, d):
+            yield hold(idxs, 0)
+            if idxs:
+                yield SEQ(hold(idxs, 0), hold(idxs, 1))
+                yield SEQ(hold(idxs, 0), plain_hold())
+            if d <= 0:
+                return
+            for b in bodies(idxs, d - 1):
+                for c in counts:
+                    yield REP(c, b)
+            name = IDX_NAMES[len(idxs)]
+            for b in bodies(idxs + (name,), d - 1):
+                if not any(x['t'] == 'hold' and any(v['k'] == 'aff' and name in v['coefs'] for v in x['v'].values()) for x in walk(b)):
+                    continue
+                for n in lens:
+                    yield IT(name, (0, n, 1), b)
+        return list(bodies((), depth))
+
+    out = []
     depth = 2 if tier == 'quick' else 3
-
-    def hold(idxs, var):
-        coefs = {n: fs(COEF_POOL[(k + var) % 3]) for k, n in enumerate(idxs)}
-        if not coefs:
-            return H(1, a=fs(F(3 + var, 2)))
-        return {'t': 'hold', 'dur': '1', 'v': {'a': {'k': 'aff', 'base': fs(F(var, 4)), 'coefs': coefs}}}
-
-    def bodies(idxs, d):
-        yield hold(idxs, 0)
-        if idxs:
-            yield SEQ(hold(idxs, 0), hold(idxs, 1))
-            yield SEQ(hold(idxs, 0), H(1, a='5/2'))
-        if d <= 0:
-            return
-        for b in bodies(idxs, d - 1):
-            for c in counts:
-                yield REP(c, b)
-        name = IDX_NAMES[len(idxs)]
-        for b in bodies(idxs + (name,), d - 1):
-            if not any(x['t'] == 'hold' and any(v['k'] == 'aff' and name in v['coefs'] for v in x['v'].values()) for x in walk(b)):
-                continue
-            for n in lens:
-                yield IT(name, (0, n, 1), b)
-    for b in bodies((), depth):
+    for b in enum(('a',), depth, 0):
         out.append({'kind': 'run', 'channels': ['a'], 'tree': b, 'exact': True})
+    if tier != 'quick':
+        for bmode in (0, 1, 2):
+            for b in enum(('a', 'b'), 3, bmode):
+                for order in itertools.permutations(('a', 'b')):
+                    out.append({'kind': 'run', 'channels': list(order), 'tree': b, 'exact': True})
+        for b in enum(('a', 'b', 'c'), 2, 1):
+            for order in itertools.permutations(('a', 'b', 'c')):
+                out.append({'kind': 'run', 'channels': list(order), 'tree': b, 'exact': True})
     return out
 
 
@@ -448,8 +492,10 @@ def gen_cases(rng, tier, ctx):
     cases = boundary_cases()
     small = enum_small(tier)
     if tier == 'quick':
-        rng.shuffle(small)
-        small = small[:250]
+        # all one-channel nests of depth <= 2 plus a sample of the thorough tier's multi-channel / depth-3 enumeration
+        extra = enum_small('thorough')
+        rng.shuffle(extra)
+        small = small + extra[:170]
     cases.extend(small)
     n = {'quick': 1, 'thorough': 8}[tier]
     # A: iterations and sequences only (the class covered by the staircase theorem and its generalisation)
@@ -623,6 +669,10 @@ def to_coq(case, obs):
     if 'crash' in obs or 'hang' in obs:
         return 'CCrash'
     chans = case['channels']
+    if case['kind'] == 'run' and _has(case['tree'], lambda x: x['t'] == 'remap'):
+        return '(CRun2 %s %d%%positive %s %s %s %s %s)' % (
+            vlib.gnat(len(chans)), fuel_of(case, obs), g_src2(case['tree'], chans), gbool(case.get('exact', True)), g_iobs(obs),
+            g_steps(obs['dflt']), gQ(F(obs['dflt_total'])))
     src = g_src(case['tree'], chans)
     if case['kind'] == 'run':
         return '(CRun %s %d%%positive %s %s %s %s %s)' % (
